@@ -389,9 +389,33 @@ type vIngress struct {
 	nhist  int
 	keys   []string
 	stats  map[string]int
+	hard   map[string]bool // mismatch kinds that end a history (the running property's clauses)
+	soft   []*vBad         // other kinds: recorded (capped), the replay goes on
+	nsoft  map[string]int
 }
 
 const vHostID = 2
+
+// vFence is set once the counting barrier failed (operations swallowed, or more outputs than
+// operations: only on a broken tree). From then on every request is followed by a fence: a
+// fresh operation (accepted) and the same again (rejected); filterPersist, every subscriber
+// queue and the feedback sender are FIFO, so when the fence came out everywhere, the
+// request before it has been processed completely. Fence outputs (keys containing "/~") are
+// filtered from every log.
+var vFence atomic.Bool
+
+func vIsFence(key string) bool { return strings.Contains(key, "/~") }
+
+func vNoFence(bs [][]vNote) [][]vNote {
+	var r [][]vNote
+	for _, b := range bs {
+		if len(b) > 0 && vIsFence(b[0].Key) {
+			continue
+		}
+		r = append(r, b)
+	}
+	return r
+}
 
 func vNewIngress(keys []string) (*vIngress, error) {
 	w := vNewWorld(1)
@@ -401,7 +425,7 @@ func vNewIngress(keys []string) (*vIngress, error) {
 	h := w.nodes[vHostID]
 	h.addMember(1)
 	h.addMember(3)
-	g := &vIngress{w: w, host: h, keys: keys, stats: map[string]int{}}
+	g := &vIngress{w: w, host: h, keys: keys, stats: map[string]int{}, nsoft: map[string]int{}}
 	g.p0 = h.subscribe("p0", "p")
 	g.f0 = h.subscribe("f0", "f")
 	// move the version counter off zero so that histories may start at c0 <= 2
@@ -506,7 +530,16 @@ func (g *vIngress) replay(hi int, h []vStep, finals *sync.Map) *vBad {
 	}
 	delivered := map[string]bool{}
 	bad := func(step int, kind, exp, act string) *vBad {
-		return &vBad{I: hi, R: "mismatch", Step: step, Kind: kind, Exp: exp, Act: act}
+		b := &vBad{I: hi, R: "mismatch", Step: step, Kind: kind, Exp: exp, Act: act}
+		if g.hard != nil && !g.hard[kind] {
+			g.nsoft[kind]++
+			if g.nsoft[kind] <= 3 {
+				b.R = "soft"
+				g.soft = append(g.soft, b)
+			}
+			return nil
+		}
+		return b
 	}
 	checkEngine := func(step int, eng map[string]vDig) *vBad {
 		for _, k := range g.keys {
@@ -517,19 +550,27 @@ func (g *vIngress) replay(hi int, h []vStep, finals *sync.Map) *vBad {
 				real.Ver -= base
 			}
 			if real != e {
-				return bad(step, "engine", fmt.Sprintf("%s=%+v", k, e), fmt.Sprintf("%s=%+v", k, real))
+				if b := bad(step, "engine", fmt.Sprintf("%s=%+v", k, e), fmt.Sprintf("%s=%+v", k, real)); b != nil {
+					return b
+				}
 			}
 			switch d.Var {
 			case "set":
 				if !has || !(val == vToken(pre+k, d.Ver, d.Lh) || strings.HasPrefix(val, pre+k+"#L")) {
-					return bad(step, "value", fmt.Sprintf("%s holds the value of its digest %+v", k, real), fmt.Sprintf("value=%q present=%v", val, has))
+					if b := bad(step, "value", fmt.Sprintf("%s holds the value of its digest %+v", k, real), fmt.Sprintf("value=%q present=%v", val, has)); b != nil {
+						return b
+					}
 				}
 				if strings.HasPrefix(val, pre+k+"#L") && d.Lh != host.id {
-					return bad(step, "value", "remote digest with remote value", "local value under remote digest "+val)
+					if b := bad(step, "value", "remote digest with remote value", "local value under remote digest "+val); b != nil {
+						return b
+					}
 				}
 			default:
 				if has {
-					return bad(step, "value", k+" has no value (deleted/absent)", "value="+val)
+					if b := bad(step, "value", k+" has no value (deleted/absent)", "value="+val); b != nil {
+						return b
+					}
 				}
 			}
 		}
@@ -539,7 +580,6 @@ func (g *vIngress) replay(hi int, h []vStep, finals *sync.Map) *vBad {
 	for si := 1; si < len(h); si++ {
 		st := h[si]
 		raw0, fb0 := host.raw.nBatches(), 0
-		rawT0, fbT0 := host.raw.total.Load(), w.fbDigs.Load()
 		w.mu.Lock()
 		fb0 = len(w.fbs)
 		lease0 := len(w.leases)
@@ -566,9 +606,24 @@ func (g *vIngress) replay(hi int, h []vStep, finals *sync.Map) *vBad {
 				return &vBad{I: hi, R: "inconclusive", Step: si, Note: "send: " + err.Error()}
 			}
 			n := int64(len(st.Ops))
-			if !vWait(func() bool { return host.raw.total.Load()-rawT0+w.fbDigs.Load()-fbT0 >= n }, 2*time.Second) {
-				return bad(si, "incomplete", fmt.Sprintf("%d operations notified or fed back", n),
-					fmt.Sprintf("%d notified, %d fed back", host.raw.total.Load()-rawT0, w.fbDigs.Load()-fbT0))
+			counts := func() (int64, int64) { return g.counts(raw0, fb0) }
+			if vFence.Load() {
+				if nb := g.fence(hi, si, pre, marks); nb != nil {
+					return nb
+				}
+			} else if !vWait(func() bool { a, b := counts(); return a+b >= n }, time.Second) {
+				g.stats["timeouts"]++
+				vFence.Store(true)
+			}
+			if nraw, nfb := counts(); nraw+nfb != n {
+				vFence.Store(true) // counting is no barrier on this tree
+				if b := checkEngine(si, st.Eng); b != nil {
+					return b
+				}
+				if b := bad(si, "incomplete", fmt.Sprintf("%d operations notified or fed back", n),
+					fmt.Sprintf("%d notified, %d fed back", nraw, nfb)); b != nil {
+					return b
+				}
 			}
 			g.stats["syncs"]++
 			g.stats["accepted"] += len(st.Acc)
@@ -579,7 +634,12 @@ func (g *vIngress) replay(hi int, h []vStep, finals *sync.Map) *vBad {
 			fbs := append([]vFb{}, w.fbs[fb0:]...)
 			w.mu.Unlock()
 			var got []string
+			nmsg := 0
 			for _, f := range fbs {
+				if len(f.Msg.Digests) > 0 && vIsFence(string(f.Msg.Digests[0].Key)) {
+					continue
+				}
+				nmsg++
 				for _, d := range f.Msg.Digests {
 					got = append(got, fmt.Sprintf("%s:v%d/l%d/%s->%d", strings.TrimPrefix(string(d.Key), pre), int64(d.Version)-base, d.Leaseholder, vVariant(d.Variant), vAddrID(f.To)))
 				}
@@ -588,8 +648,8 @@ func (g *vIngress) replay(hi int, h []vStep, finals *sync.Map) *vBad {
 			for _, o := range st.Rej {
 				exp = append(exp, fmt.Sprintf("%s->%d", o.String(), st.From))
 			}
-			if strings.Join(got, " ") != strings.Join(exp, " ") || len(fbs) > 1 {
-				pinned = bad(si, "feedback", strings.Join(exp, " "), fmt.Sprintf("%s (%d msgs)", strings.Join(got, " "), len(fbs)))
+			if strings.Join(got, " ") != strings.Join(exp, " ") || nmsg > 1 {
+				pinned = bad(si, "feedback", strings.Join(exp, " "), fmt.Sprintf("%s (%d msgs)", strings.Join(got, " "), nmsg))
 			}
 		case "local":
 			nlocal++
@@ -601,7 +661,9 @@ func (g *vIngress) replay(hi int, h []vStep, finals *sync.Map) *vBad {
 				err = host.db.Set(w.ctx, []byte(pre+st.K), []byte(tok))
 			}
 			if err != nil {
-				return bad(si, "local-result", st.Res, "error: "+err.Error())
+				if b := bad(si, "local-result", st.Res, "error: "+err.Error()); b != nil {
+					return b
+				}
 			}
 			g.stats["locals"]++
 			if st.Res == "forward" {
@@ -617,11 +679,14 @@ func (g *vIngress) replay(hi int, h []vStep, finals *sync.Map) *vBad {
 				o := vOp{K: st.K, Ver: st.Ver, Lh: host.id, Var: st.Var}
 				localTok[o.String()] = tok
 				delivered[o.String()] = true
-				if !vWait(func() bool { return host.raw.total.Load()-rawT0 >= 1 }, 2*time.Second) {
+				if !vWait(func() bool { a, _ := g.counts(raw0, fb0); return a >= 1 }, time.Second) {
+					vFence.Store(true)
 					if b := checkEngine(si, st.Eng); b != nil {
 						return b
 					}
-					return bad(si, "incomplete", "local write notified", "nothing")
+					if b := bad(si, "incomplete", "local write notified", "nothing"); b != nil {
+						return b
+					}
 				}
 				expRaw = want([]vOp{o})
 				txlh = host.id
@@ -634,17 +699,23 @@ func (g *vIngress) replay(hi int, h []vStep, finals *sync.Map) *vBad {
 			return b
 		}
 		// raw observer: what the persist stage handed to observers
-		rb := host.raw.batches(raw0)
+		rb := vNoFence(host.raw.batches(raw0))
 		if act := vNotesOf(rb); act != expRaw {
-			return bad(si, "notify-raw", expRaw, act)
+			if b := bad(si, "notify-raw", expRaw, act); b != nil {
+				return b
+			}
 		}
 		for _, b := range rb {
 			for _, n := range b {
 				if n.TxLh != txlh {
-					return bad(si, "txlh", fmt.Sprintf("TxRequest.Leaseholder=%d", txlh), fmt.Sprintf("%d", n.TxLh))
+					if b := bad(si, "txlh", fmt.Sprintf("TxRequest.Leaseholder=%d", txlh), fmt.Sprintf("%d", n.TxLh)); b != nil {
+						return b
+					}
 				}
 				if st.A == "local" && (n.Ver-base != st.Ver || n.Lh != host.id) {
-					return bad(si, "engine", fmt.Sprintf("local version %d lh %d", st.Ver, host.id), fmt.Sprintf("%d lh %d", n.Ver-base, n.Lh))
+					if b := bad(si, "engine", fmt.Sprintf("local version %d lh %d", st.Ver, host.id), fmt.Sprintf("%d lh %d", n.Ver-base, n.Lh)); b != nil {
+						return b
+					}
 				}
 			}
 		}
@@ -658,9 +729,13 @@ func (g *vIngress) replay(hi int, h []vStep, finals *sync.Map) *vBad {
 			if exp != "" {
 				nexp = 1
 			}
-			vWait(func() bool { return int64(m.s.nBatches()-m.n) >= nexp }, 300*time.Millisecond)
-			if act := vNotesOf(m.s.batches(m.n)); act != exp {
-				return bad(si, "notify-"+m.s.kind, exp, m.s.name+": "+act)
+			if !vFence.Load() {
+				vWait(func() bool { return int64(m.s.nBatches()-m.n) >= nexp }, 300*time.Millisecond)
+			}
+			if act := vNotesOf(vNoFence(m.s.batches(m.n))); act != exp {
+				if b := bad(si, "notify-"+m.s.kind, exp, m.s.name+": "+act); b != nil {
+					return b
+				}
 			}
 			if exp != "" {
 				g.stats["notes_"+m.s.kind]++
@@ -670,8 +745,8 @@ func (g *vIngress) replay(hi int, h []vStep, finals *sync.Map) *vBad {
 			return pinned
 		}
 	}
-	// barrier: a sentinel request travels behind everything still in the pipeline (accepted ->
-	// every subscriber's queue, rejected -> the feedback sender); nothing else may show up.
+	// barrier: a fence travels behind everything still in the pipeline (accepted -> every
+	// subscriber's queue, rejected -> the feedback sender); nothing else may show up.
 	marks := []vSubMark{{host.raw, host.raw.nBatches()}}
 	for _, s := range append(append([]*vSub{}, subs...), late...) {
 		marks = append(marks, vSubMark{s, s.nBatches()})
@@ -679,41 +754,31 @@ func (g *vIngress) replay(hi int, h []vStep, finals *sync.Map) *vBad {
 	w.mu.Lock()
 	fb0 := len(w.fbs)
 	w.mu.Unlock()
-	sk := pre + "~"
-	sop := vRealOp(sk, vOp{K: "~", Ver: 1, Lh: 1, Var: "set"}, 1)
-	for i := 0; i < 2; i++ {
-		if _, err := w.opNet.UnaryClient().Send(w.ctx, vAddr(host.id), TxRequest{Sender: 1, Operations: []Operation{sop}}); err != nil {
-			return &vBad{I: hi, R: "inconclusive", Note: "sentinel: " + err.Error()}
+	if nb := g.fence(hi, len(h), pre, marks[1:]); nb != nil {
+		g.stats["timeouts"]++
+		if b := bad(len(h), "incomplete", "fence observed by every subscriber and fed back", "timeout"); b != nil {
+			return b
 		}
 	}
-	ok := vWait(func() bool {
-		w.mu.Lock()
-		nf := len(w.fbs) - fb0
-		w.mu.Unlock()
-		if nf < 1 {
-			return false
-		}
-		for _, m := range marks {
-			if m.s.nBatches()-m.n < 1 {
-				return false
-			}
-		}
-		return true
-	}, 2*time.Second)
-	if !ok {
-		return bad(len(h), "incomplete", "sentinel observed by every subscriber and fed back once", "timeout")
-	}
-	sent := "<" + sk + "=" + string(sop.Value) + " >"
 	for _, m := range marks {
-		if act := vNotesOf(m.s.batches(m.n)); act != sent {
-			return bad(len(h), "notify-"+m.s.kind, "nothing after the last step", m.s.name+": "+act)
+		if act := vNotesOf(vNoFence(m.s.batches(m.n))); act != "" {
+			if b := bad(len(h), "notify-"+m.s.kind, "nothing after the last step", m.s.name+": "+act); b != nil {
+				return b
+			}
 		}
 	}
 	w.mu.Lock()
-	nf := len(w.fbs) - fb0
+	nf := 0
+	for _, f := range w.fbs[fb0:] {
+		if len(f.Msg.Digests) > 0 && !vIsFence(string(f.Msg.Digests[0].Key)) {
+			nf++
+		}
+	}
 	w.mu.Unlock()
-	if nf != 1 {
-		return bad(len(h), "feedback", "no stray feedback", fmt.Sprintf("%d messages", nf))
+	if nf != 0 {
+		if b := bad(len(h), "feedback", "no stray feedback", fmt.Sprintf("%d messages", nf)); b != nil {
+			return b
+		}
 	}
 	// all delivery orders of one operation set must end in the same engine
 	set := make([]string, 0, len(delivered))
@@ -736,9 +801,83 @@ func (g *vIngress) replay(hi int, h []vStep, finals *sync.Map) *vBad {
 	}
 	key := fmt.Sprintf("c0=%d %s", h[0].C0, strings.Join(set, ","))
 	if prev, loaded := finals.LoadOrStore(key, strings.Join(fin, " ")); loaded && prev.(string) != strings.Join(fin, " ") {
-		return bad(len(h), "order", prev.(string), strings.Join(fin, " "))
+		if b := bad(len(h), "order", prev.(string), strings.Join(fin, " ")); b != nil {
+			return b
+		}
 	}
 	g.stats["histories"]++
+	return nil
+}
+
+// operations notified to the raw observer / digests fed back since the marks, fences excluded.
+func (g *vIngress) counts(raw0, fb0 int) (nraw, nfb int64) {
+	for _, b := range vNoFence(g.host.raw.batches(raw0)) {
+		nraw += int64(len(b))
+	}
+	g.w.mu.Lock()
+	for _, f := range g.w.fbs[fb0:] {
+		for _, d := range f.Msg.Digests {
+			if !vIsFence(string(d.Key)) {
+				nfb++
+			}
+		}
+	}
+	g.w.mu.Unlock()
+	return
+}
+
+// fence: see vFence. Returns an inconclusive result when even the fence does not come out.
+func (g *vIngress) fence(hi, si int, pre string, marks []vSubMark) *vBad {
+	w, host := g.w, g.host
+	g.stats["fences"]++
+	key := fmt.Sprintf("%s~%d", pre, si)
+	for _, ver := range []int64{2, 1, 2} { // accepted, then two that cannot both be accepted
+		op := vRealOp(key, vOp{K: "~", Ver: ver, Lh: 1, Var: "set"}, ver)
+		if _, err := w.opNet.UnaryClient().Send(w.ctx, vAddr(host.id), TxRequest{Sender: 1, Operations: []Operation{op}}); err != nil {
+			return &vBad{I: hi, R: "inconclusive", Step: si, Note: "fence: " + err.Error()}
+		}
+	}
+	sawIn := func(s *vSub, from int) bool {
+		for _, b := range s.batches(from) {
+			for _, n := range b {
+				if n.Key == key {
+					return true
+				}
+			}
+		}
+		return false
+	}
+	fedN := func() int {
+		n := 0
+		w.mu.Lock()
+		for i := len(w.fbs) - 1; i >= 0 && i >= len(w.fbs)-8; i-- {
+			for _, d := range w.fbs[i].Msg.Digests {
+				if string(d.Key) == key {
+					n++
+				}
+			}
+		}
+		w.mu.Unlock()
+		return n
+	}
+	// a healthy tree rejects two of the three; wait for both so that none strays into the next step
+	if !vWait(func() bool { return fedN() >= 2 }, 100*time.Millisecond) {
+		g.stats["fence_short"]++
+	}
+	ok := vWait(func() bool {
+		if fedN() < 1 || !sawIn(host.raw, 0) {
+			return false
+		}
+		for _, m := range marks {
+			if !sawIn(m.s, m.n) {
+				return false
+			}
+		}
+		return true
+	}, 2*time.Second)
+	if !ok {
+		return &vBad{I: hi, R: "inconclusive", Step: si, Note: "fence request did not come out of the pipeline"}
+	}
 	return nil
 }
 
@@ -787,7 +926,14 @@ func TestVerifKVIngress(t *testing.T) {
 	}
 	jobs := make(chan job, 256)
 	var mu sync.Mutex
-	var bads []*vBad
+	var bads, softs []*vBad
+	var hard map[string]bool
+	if v := os.Getenv("VERIF_KINDS"); v != "" {
+		hard = map[string]bool{}
+		for _, k := range strings.Split(v, ",") {
+			hard[k] = true
+		}
+	}
 	stats := map[string]int{}
 	var nbad atomic.Int64
 	var finals sync.Map
@@ -835,7 +981,20 @@ func TestVerifKVIngress(t *testing.T) {
 					nbad.Add(1)
 					continue
 				}
-				if b := g.replay(j.i, h, &finals); b != nil {
+				g.hard = hard
+				b := g.replay(j.i, h, &finals)
+				if len(g.soft) > 0 {
+					mu.Lock()
+					if len(softs) < 30 {
+						softs = append(softs, g.soft...)
+					}
+					mu.Unlock()
+					g.soft = nil
+				}
+				if g.stats["timeouts"] > 8 {
+					nbad.Add(int64(maxBad)) // a pipeline that swallows operations: stop, do not wait 1 s per history
+				}
+				if b != nil {
 					mu.Lock()
 					bads = append(bads, b)
 					mu.Unlock()
@@ -865,6 +1024,9 @@ func TestVerifKVIngress(t *testing.T) {
 	enc := json.NewEncoder(of)
 	_ = enc.Encode(map[string]any{"summary": true, "read": n, "replayed": stats["histories"], "bad": len(bads), "stats": stats})
 	for _, b := range bads {
+		_ = enc.Encode(b)
+	}
+	for _, b := range softs {
 		_ = enc.Encode(b)
 	}
 }
